@@ -37,25 +37,43 @@ def guarded(fn, seconds=10, retry=False):
 
 
 def _guarded(fn, seconds):
+    """The limit is on the CPU time the call itself consumes (ITIMER_VIRTUAL): a worker that is merely starved on a
+    loaded machine does not burn CPU and cannot time out spuriously, a genuine endless loop does.  A generous
+    wall-clock alarm (30x) remains as the backstop for a call that blocks without computing."""
     import threading
     if threading.current_thread() is not threading.main_thread():
-        try:                       # no alarm outside the main thread (C12's thread clause)
+        try:                       # no signals outside the main thread (C12's thread clause)
             return 'ok', fn()
         except BaseException as e:  # noqa
             if isinstance(e, (KeyboardInterrupt, SystemExit)):
                 raise
             return 'exc', e
-    old = signal.signal(signal.SIGALRM, _alarm)
-    signal.alarm(seconds)
-    try:
-        return 'ok', fn()
-    except BaseException as e:  # noqa
-        if isinstance(e, (KeyboardInterrupt, SystemExit)):
-            raise
-        return 'exc', e
-    finally:
+    old_v = signal.signal(signal.SIGVTALRM, _alarm)
+    old_r = signal.signal(signal.SIGALRM, _alarm)
+    res = None
+
+    def cancel():
+        signal.setitimer(signal.ITIMER_VIRTUAL, 0)
         signal.alarm(0)
-        signal.signal(signal.SIGALRM, old)
+    try:
+        try:
+            signal.setitimer(signal.ITIMER_VIRTUAL, seconds)
+            signal.alarm(seconds * 30)
+            res = ('ok', fn())
+        except BaseException as e:  # noqa
+            if isinstance(e, (KeyboardInterrupt, SystemExit)):
+                raise
+            res = ('exc', e)
+        finally:
+            cancel()
+    except _Timeout as e:          # a timer fired while it was being cancelled
+        cancel()
+        if res is None:
+            res = ('exc', e)
+    finally:
+        signal.signal(signal.SIGVTALRM, old_v)
+        signal.signal(signal.SIGALRM, old_r)
+    return res
 
 
 def classify(e):
